@@ -94,3 +94,23 @@ Example C08_nonvacuous :
   routed_sum (fun k => snd k =? 0) (materialize_p day median b) = 7 /\ routed_min (fun k => snd k =? 0) (materialize_p day median b) = Some (-2) /\
   routed_count (fun k => fst k <? 20) (materialize_p day median b) = 4 /\ length (materialize_p day median b) = 4%nat.
 Proof. exact routing_nonvacuous. Qed.
+
+Require V.Model.TryRoute V.Gen.TryRoute_gen V.Proofs.C08_route_proofs.
+(* the step between the query and the matcher, regenerated: Gen/TryRoute_gen.v holds what SQLGenerator._try_use_preaggregation does on 814 scripted scenarios (model with /
+   without rollups; dimension lists with plain dimensions, a bare time dimension, the time dimension at one, two or three granularities in every order; qualified and
+   unqualified metric references; filters with model and CTE prefixes; a matcher that finds a rollup or not, and a found rollup that serves any subset of the requested
+   granularities), extracted from generator.py on every run by executing the method's AST against a scripted matcher (fail closed, validated against CPython).  The model
+   gives the same verdict, asks the matcher the same question and re-checks the same granularities on every scenario; and for ANY query the model routes, every granularity
+   requested by some dimension is the one the matcher was asked about or one the matched rollup serves, the model has rollups, the matcher found one and no time dimension
+   was requested without a granularity. *)
+Theorem C08_route_table : forallb V.Model.TryRoute.tryroute_row_ok V.Gen.TryRoute_gen.tryroute_rows = true.
+Proof. exact V.Proofs.C08_route_proofs.tryroute_table_ok. Qed.
+Theorem C08_all_granularities : forall model is_time hp dims mets filters find serves,
+  fst (fst (V.Model.TryRoute.try_route model is_time hp dims mets filters find serves)) = true ->
+  forall d g, In (d, Some g) dims -> V.Model.TryRoute.opt_is (V.Model.TryRoute.last_gran dims None) g = true \/ In g serves.
+Proof. exact V.Proofs.C08_route_proofs.try_route_all_granularities. Qed.
+Theorem C08_route_asks : forall model is_time hp dims mets filters find serves,
+  fst (fst (V.Model.TryRoute.try_route model is_time hp dims mets filters find serves)) = true ->
+  hp = true /\ find = true /\
+  forallb (fun d => match snd d with None => negb (is_time (V.Model.TryRoute.strip_model (fst d))) | Some _ => true end) dims = true.
+Proof. exact V.Proofs.C08_route_proofs.try_route_asks. Qed.
